@@ -1,7 +1,8 @@
 /- Running the executable models of C18 through label lists: used by the witness theorems and the non-vacuity examples. -/
 import YaclibModel.Proofs.FiberSyncProgress
-import YaclibModel.Proofs.FiberSyncRec
+import YaclibModel.Proofs.FiberSyncRecFixed
 import YaclibModel.Proofs.FiberSyncSharedInv
+import YaclibModel.Proofs.FiberSyncSharedFixedInv
 import YaclibModel.Proofs.FiberSyncThread
 
 namespace Yaclib.FiberSync
@@ -11,7 +12,7 @@ def run (s : State) : List Label → Option State
   | [] => some s
   | l :: ls => match next s l with | some s' => run s' ls | none => none
 
-theorem reach_run {k n s ls s'} (h : Reachable k n s) (hr : run s ls = some s') : Reachable k n s' := by
+theorem reach_run {k fx n s ls s'} (h : Reachable k fx n s) (hr : run s ls = some s') : Reachable k fx n s' := by
   induction ls generalizing s with
   | nil => simp [run] at hr; subst hr; exact h
   | cons l ls ih =>
@@ -26,7 +27,7 @@ def run (s : State) : List Label → Option State
   | [] => some s
   | l :: ls => match next s l with | some s' => run s' ls | none => none
 
-theorem reach_run {k p n s ls s'} (h : Reachable k p n s) (hr : run s ls = some s') : Reachable k p n s' := by
+theorem reach_run {k p lp n s ls s'} (h : Reachable k p lp n s) (hr : run s ls = some s') : Reachable k p lp n s' := by
   induction ls generalizing s with
   | nil => simp [run] at hr; subst hr; exact h
   | cons l ls ih =>
@@ -41,7 +42,7 @@ def run (s : State) : List Label → Option State
   | [] => some s
   | l :: ls => match next s l with | some s' => run s' ls | none => none
 
-theorem reach_run {k n s ls s'} (h : Reachable k n s) (hr : run s ls = some s') : Reachable k n s' := by
+theorem reach_run {k fx n s ls s'} (h : Reachable k fx n s) (hr : run s ls = some s') : Reachable k fx n s' := by
   induction ls generalizing s with
   | nil => simp [run] at hr; subst hr; exact h
   | cons l ls ih =>
